@@ -3,7 +3,8 @@
    model: [pl_exec cfg sched] runs the schedule [sched : list nat] (thread ids) from the state right
    after Control.Start; "every schedule" is [forall sched].  Thread programs ([cf_reqs cfg]) are an
    arbitrary list of work-connection arrivals, user connections, timers and session teardowns; the
-   oracle [cf_dead] says which connections the peer has reset before the server writes on them. *)
+   oracle [cf_dead] says which connections the peer has reset before the server writes on them.
+   The hand-off channels of the group / vhost accept paths are the second model ([h_exec]). *)
 From FRP Require Import Model.Pool Proofs.PoolProofs.
 Open Scope Z_scope.
 
@@ -28,6 +29,20 @@ Theorem C11_consumed_at_most_once : forall cfg sched u1 u2 c,
 Proof. exact consumed_at_most_once. Qed.
 Print Assumptions C11_consumed_at_most_once.
 
+(* the StartWorkConn written on the connection a user is bridged to carries the name of the proxy that
+   accepted this user and the user's own address; every StartWorkConn ever written belongs to such a
+   bridge; no connection is announced twice *)
+Theorem C11_start_msg_names_proxy_and_user : forall cfg sched,
+  let s := pl_exec cfg sched in
+  (forall u c, ps_user s u = UBridged c ->
+     exists e eof, In e (ps_log s) /\ st_conn e = c /\ st_user e = u /\
+       pl_req_of cfg u = Some (RUser (st_proxy e) (st_src e) (st_sport e) eof)) /\
+  (forall e, In e (ps_log s) -> ps_user s (st_user e) = UBridged (st_conn e) /\
+       exists eof, pl_req_of cfg (st_user e) = Some (RUser (st_proxy e) (st_src e) (st_sport e) eof)) /\
+  NoDup (map st_conn (ps_log s)).
+Proof. exact start_msg_names_proxy_and_user. Qed.
+Print Assumptions C11_start_msg_names_proxy_and_user.
+
 (* direct accept path: a user connection whose handler has returned is closed or bridged to exactly the
    connection whose fate is "delivered to this user" *)
 Theorem C11_user_conn_bridged_or_closed : forall cfg sched u,
@@ -36,6 +51,47 @@ Theorem C11_user_conn_bridged_or_closed : forall cfg sched u,
   ps_user s u = UClosed \/ exists c, ps_user s u = UBridged c /\ pl_view s c = VDelivered u.
 Proof. exact user_bridged_or_closed. Qed.
 Print Assumptions C11_user_conn_bridged_or_closed.
+
+(* ... and while it waits for a work connection, the timer firing closes it at that very step
+   (the wall-clock value of the timer is observed by the harness, not proved) *)
+Theorem C11_user_conn_closed_on_timeout : forall cfg s t u i,
+  ps_thr s t = TTimer -> pl_req_of cfg t = Some (RTimeout u) -> ps_thr s u = TU (UWait i) ->
+  let s1 := pl_step cfg s t in ps_user s1 u = UClosed /\ ps_thr s1 u = TU UDone.
+Proof.
+  intros cfg s t u i Ht Hr Hu. unfold pl_step. rewrite Ht, Hr. unfold pl_step_timer. rewrite Hu.
+  unfold pl_user_close. simpl. unfold upd. rewrite PeanoNat.Nat.eqb_refl. auto.
+Qed.
+Print Assumptions C11_user_conn_closed_on_timeout.
+
+(* hand-off paths (vhost muxer, tcp group, tcpmux group), repaired call sites: whatever the interleaving of
+   dispatchers and the closing listener, no user connection is dropped unclosed, and a dispatcher that has
+   ended left its connection accepted by the member listener (then the direct path applies) or closed *)
+Theorem C11_handoff_never_lost : forall cfg sched u,
+  hc_close_on_fail cfg = true -> hs_fate (h_exec cfg sched) u <> HLost.
+Proof. exact handoff_never_lost. Qed.
+Print Assumptions C11_handoff_never_lost.
+
+Theorem C11_handoff_accepted_or_closed : forall cfg sched u,
+  hc_close_on_fail cfg = true -> hs_thr (h_exec cfg sched) u = Some HEnd ->
+  let f := hs_fate (h_exec cfg sched) u in f = HAccepted \/ f = HClosedNoRoute \/ f = HClosedOnFail.
+Proof. exact handoff_accepted_or_closed. Qed.
+Print Assumptions C11_handoff_accepted_or_closed.
+
+(* today's code is the repaired one (Model/Pool.v, tied by the hand-off driver) *)
+Theorem C11_handoff_today : forall reqs sched u,
+  hs_fate (h_exec (h_vhost_cfg reqs) sched) u <> HLost /\ hs_fate (h_exec (h_group_cfg reqs) sched) u <> HLost.
+Proof. intros; split; apply handoff_never_lost; reflexivity. Qed.
+Print Assumptions C11_handoff_today.
+
+(* regression witness (F-C11b, repaired): with call sites that only log the failed send, the schedule
+   lookup(0); close listener; send(0) leaves connection 0 open with no peer — vhost order and group order *)
+Theorem C11_handoff_old_code_refuted :
+  hs_fate (h_exec {| hc_reqs := [HDispatch; HCloser]; hc_chan_first := false; hc_close_on_fail := false |}
+                  [0; 1; 1; 1; 0]%nat) 0%nat = HLost /\
+  hs_fate (h_exec {| hc_reqs := [HDispatch; HCloser]; hc_chan_first := true; hc_close_on_fail := false |}
+                  [1; 0; 0; 1; 1; 0]%nat) 0%nat = HLost.
+Proof. vm_compute. split; reflexivity. Qed.
+Print Assumptions C11_handoff_old_code_refuted.
 
 (* in no reachable state is a work connection open, unpooled, unbridged and unreferenced *)
 Theorem C11_no_conn_lost : forall cfg sched c, pl_view (pl_exec cfg sched) c <> VLost.
@@ -51,3 +107,52 @@ Theorem C11_no_orphan_after_teardown : forall cfg sched c,
   pl_view s c = VNone \/ pl_view s c = VClosed \/ exists u, pl_view s c = VDelivered u /\ ps_user s u = UBridged c.
 Proof. exact no_orphan_after_teardown. Qed.
 Print Assumptions C11_no_orphan_after_teardown.
+
+(* surplus offers (pool full), offers to a closed pool and offers for an unknown run id are refused ... *)
+Theorem C11_surplus_refused : forall cfg s t,
+  (ps_thr s t = TW WLookup /\ ps_mapped s = false) \/
+  (ps_thr s t = TW WSend /\ (ch_closed (ps_ch s) = true \/ ch_cap (ps_ch s) <= pl_pool_len s)) ->
+  let s1 := pl_step cfg s t in
+  ps_thr s1 t = TW WCloseIt /\ ps_ch s1 = ps_ch s /\ ps_fate s1 = ps_fate s.
+Proof. exact offer_refused. Qed.
+Print Assumptions C11_surplus_refused.
+
+(* ... and a refused connection is closed as soon as its goroutine runs, whatever runs in between, for good *)
+Theorem C11_surplus_refused_and_closed : forall cfg sched1 sched2 t,
+  let s1 := pl_exec cfg sched1 in
+  ps_thr s1 t = TW WCloseIt -> In t sched2 ->
+  let s2 := pl_run cfg sched2 s1 in
+  ps_fate s2 t = PClosed /\ ps_thr s2 t = TW WDone.
+Proof. exact refused_is_closed. Qed.
+Print Assumptions C11_surplus_refused_and_closed.
+
+(* a work connection that arrives once the pool has been closed (session ending or ended) is never parked:
+   in every later state it is not in the pool, and when its goroutine has ended it is closed *)
+Theorem C11_late_workconn_closed_not_parked : forall cfg sched1 sched2 t,
+  let s1 := pl_exec cfg sched1 in
+  ch_closed (ps_ch s1) = true -> ps_thr s1 t = TW WLookup ->
+  let s2 := pl_run cfg sched2 s1 in
+  ~ In t (ch_q (ps_ch s2)) /\ (ps_thr s2 t = TW WDone -> ps_fate s2 t = PClosed).
+Proof. exact late_workconn_not_parked. Qed.
+Print Assumptions C11_late_workconn_closed_not_parked.
+
+(* non-vacuity: two arrivals, one user served from the pool, teardown, a late arrival; every thread ends,
+   nothing crashes; connection 0 is bridged to user 2, 1 is closed by the drain, 4 is closed on refusal *)
+Definition ex_cfg : pcfg :=
+  {| cf_client_pc := 7; cf_server_max := 5;
+     cf_reqs := [RWork; RWork; RUser (hx "7061") (hx "0a000001") 40000 false; RTeardown; RWork];
+     cf_dead := fun _ => false |}.
+Definition ex_sched : list nat := List.concat (map (fun t => repeat t 8) [0; 1; 2; 3; 4]%nat).
+Example C11_example :
+  let s := pl_exec ex_cfg ex_sched in
+  forallb (fun t => pl_thread_finished (ps_thr s t)) (seq 0 8) = true /\
+  ps_thr s 3%nat = TT TFin /\ ps_crashed s = false /\ ps_req s = 6 /\
+  pl_view s 0%nat = VDelivered 2 /\ pl_view s 1%nat = VClosed /\ pl_view s 4%nat = VClosed /\
+  ps_user s 2%nat = UBridged 0 /\ length (ps_log s) = 1%nat.
+Proof. vm_compute. repeat split; reflexivity. Qed.
+
+(* the late arrival of the example meets the hypotheses of C11_late_workconn_closed_not_parked *)
+Example C11_example_late :
+  let s1 := pl_exec ex_cfg (List.concat (map (fun t => repeat t 8) [0; 1; 2]%nat) ++ [3; 3]%nat) in
+  ch_closed (ps_ch s1) = true /\ ps_mapped s1 = true /\ ps_thr s1 4%nat = TW WLookup.
+Proof. vm_compute. repeat split; reflexivity. Qed.
